@@ -129,6 +129,7 @@ class Ctx:
         self.assumptions = []
         self.level = "proof"
         self.log_lines = []
+        self.stage_counts = {}     # per stage: how many cases met every computed hypothesis (stage H)
 
     def log(self, *a):
         msg = " ".join(str(x) for x in a)
